@@ -450,6 +450,39 @@ func BaseStubs() map[string]StubFn {
 		}
 		return tuple{v, iface{}}
 	}
+	// strconv.Unquote of a byte vector "…" or `…` whose body needs no unescaping (every symbolic
+	// byte is constrained - by a path decision - to be neither a backslash, a quote, nor a control byte)
+	st["strconv.Unquote"] = func(r *Run, fr *frame, fn *ssa.Function, a []value) value {
+		if s, ok := a[0].(string); ok {
+			out, err := strconv.Unquote(s)
+			if err != nil {
+				return tuple{"", r.newError(err.Error())}
+			}
+			return tuple{out, iface{}}
+		}
+		v, ok := a[0].(runesV)
+		if !ok || !v.bytes || len(v.cps) < 2 || !v.cps[0].IsConst() || !v.cps[len(v.cps)-1].IsConst() || v.cps[0].I != v.cps[len(v.cps)-1].I {
+			panic(unsupported("strconv.Unquote on a symbolic string of unknown shape"))
+		}
+		q := v.cps[0].I
+		if q != '"' && q != '`' {
+			panic(unsupported("strconv.Unquote on a symbolic string of unknown shape"))
+		}
+		body := v.cps[1 : len(v.cps)-1]
+		for _, c := range body {
+			plain := And(Le(IntT(' '), c), Lt(c, IntT(0x7f)), Not(Eq(c, IntT('\\'))), Not(Eq(c, IntT(q))))
+			if c.IsConst() {
+				if c.I < ' ' || c.I >= 0x7f || c.I == '\\' || c.I == q {
+					panic(unsupported("strconv.Unquote: escape sequences in a vector string"))
+				}
+				continue
+			}
+			if !r.branch(plain) {
+				panic(unsupported("strconv.Unquote: escape sequences in a vector string"))
+			}
+		}
+		return tuple{vecOrString(runesV{cps: body, bytes: true}), iface{}}
+	}
 	st["strconv.Itoa"] = pure(strconv.Itoa, func(r *Run, a []value) value { return r.formatOne("%d", a[0]) })
 	// unicode classes of a symbolic code point: decided for ASCII (the path is split on c < 0x80;
 	// a non-ASCII symbolic code point is outside the encoder here - C19's alphabet tables are
